@@ -454,7 +454,21 @@ class Oracle:
         return {o: first(o, True) for o in self.defaults}
 
 
-def classify_persist(o, ty, v1, v2, cli, before, after, server, fi_secs=None):
+def typed_of_raw(raw, ty):
+    """what a file value means for an option of that type (None when it means nothing)"""
+    try:
+        if ty == "TInt":
+            return int(raw)
+        if ty == "TBool":
+            return {"1": True, "yes": True, "true": True, "on": True, "0": False, "no": False, "false": False, "off": False}[raw.lower()]
+        if ty == "TList":
+            return [x.strip() for x in raw.split(",")]
+        return raw
+    except (ValueError, KeyError):
+        return None
+
+
+def classify_persist(o, ty, v1, v2, cli, before, after, server, fi_secs=None, defaults=None):
     """key of the defect class a persistence mismatch belongs to"""
     if o not in cli and o in before.get("DEFAULT", {}) and server not in before and server not in (fi_secs or {}):
         return "read_config:default-section-ignored-without-server-section"
@@ -463,9 +477,15 @@ def classify_persist(o, ty, v1, v2, cli, before, after, server, fi_secs=None):
     sec_b = (before.get(server) or {})
     sec_a = (after.get(server) or {})
     if o in cli and sec_a.get(o) == sec_b.get(o):
-        return "write_config:reset-not-persisted"
-    if o not in cli and o in sec_b and sec_a.get(o) == sec_b.get(o) and False:
-        return "write_config:reset-not-persisted"
+        # the command-line value was not stored.  The recorded finding is: it is empty, or it equals what the FI database / the
+        # built-in defaults give for this nickname (not stored by design), while the user's own file holds something else.
+        lib_raw = (fi_secs or {}).get(server, {}).get(o)
+        lib_val = typed_of_raw(lib_raw, ty) if lib_raw is not None else (defaults or {}).get(o)
+        is_null = v1 in (None, "", [])
+        stale_in_user_file = o in sec_b or o in before.get("DEFAULT", {})
+        if is_null or (same(v1, lib_val) and stale_in_user_file):
+            return "write_config:reset-not-persisted"
+        return "write_config:value-in-effect-not-stored"
     return "persist:%s:value-changed" % ty
 
 
@@ -842,16 +862,66 @@ def gen_malformed(rng, tables, n):
     return cases
 
 
-def gen_realfi(rng, tables, n):
-    """the bundled fi.cfg: real nicknames, the section text cut out by line (not by configparser) for the model"""
-    path = tables["fi_path"]
-    text = open(path, encoding="utf-8").read()
+def real_sections(tables):
+    """the bundled fi.cfg cut into sections by line (not by configparser): nickname -> text of its section"""
+    text = open(tables["fi_path"], encoding="utf-8").read()
     lines = text.split("\n")
     starts = [i for i, l in enumerate(lines) if l.startswith("[")]
     secs = {}
     for a, b in zip(starts, starts[1:] + [len(lines)]):
         name = lines[a].strip()[1:-1]
         secs[name] = "\n".join(lines[a:b]) + "\n"
+    return secs
+
+
+def gen_libdefault(rng, tables, n_real):
+    """what --write persisted is what the next run resolves, where the FI database disagrees with the built-in default:
+    every nickname whose FI section (bundled fi.cfg, or a generated one) sets an option with a non-empty built-in default
+    (version; the flags cannot be switched off on the command line) to another value; the command line gives the built-in
+    default, or the FI database's own value; --write; then a run without the option."""
+    conf = dict(tables["configurable"])
+    defaults = dict(tables["defaults"])
+    cases = []
+
+    def history(fi, server, realfi, o, v, user=None):
+        cli_w = {o: v, "write": True}
+        cases.append(dict({"fi": fi, "user": user, "oh": {},
+                           "runs": [{"argv": argv_of("stmt", server, cli_w), "uuids": ["GEN-UUID-1a", "GEN-UUID-1b"]},
+                                    {"argv": argv_of("stmt", server, {}), "uuids": ["GEN-UUID-2a", "GEN-UUID-2b"]}],
+                           "_cli": [cli_w, {}], "_server": server, "_opt": o, "_kind": "libdefault"}, **({"realfi": True} if realfi else {})))
+    # generated FI databases
+    for lib_version in (102, 103, 151, 160, 200, 211, 220):
+        fi = base_fi("srv", [("url", "https://fi.example.com/ofx"), ("version", str(lib_version))])
+        history(fi, "srv", False, "version", defaults["version"])
+        history(fi, "srv", False, "version", lib_version)
+        history(fi, "srv", False, "version", defaults["version"], user=mk_file([("srv", [("user", "porky")])]))
+    # the bundled FI database
+    secs = real_sections(tables)
+    cands = []
+    for name, text in secs.items():
+        if name == "NAMES" or not text.isascii():
+            continue
+        kv = {}
+        for l in text.split("\n")[1:]:
+            if "=" in l and not l.lstrip().startswith(("#", ";")):
+                k, v = l.split("=", 1)
+                kv[k.strip().lower()] = v.strip()
+        if "url" not in kv:
+            continue
+        for o, raw in kv.items():
+            ty = conf.get(o)
+            if ty in ("TInt",) and defaults.get(o) not in (None, "", []) and typed_of_raw(raw, ty) not in (None, defaults[o]):
+                cands.append((name, o, typed_of_raw(raw, ty)))
+    for name, o, libv in (cands if n_real is None else rng.sample(cands, min(n_real, len(cands)))):
+        history(secs[name], name, True, o, defaults[o])
+        if rng.random() < 0.3:
+            history(secs[name], name, True, o, libv)
+    return cases
+
+
+def gen_realfi(rng, tables, n):
+    """the bundled fi.cfg: real nicknames, the section text cut out by line (not by configparser) for the model"""
+    secs = real_sections(tables)
     names = [s for s in secs if s != "NAMES" and secs[s].isascii()]
     rich = [s for s in names if secs[s].count("\n") > 4]
     conf = dict(tables["configurable"])
@@ -986,7 +1056,7 @@ def check_property(case, res, orc, fail):
                     continue
                 if o == "clientuid" and not norm(v1) and v2 == uid:
                     continue                  # the generated default CLIENTUID takes effect from the next run on
-                key = classify_persist(o, ty, v1, v2, clis[i], bef, aft, server, parse_plain(case["fi"]) if not case.get("realfi") else None)
+                key = classify_persist(o, ty, v1, v2, clis[i], bef, aft, server, parse_plain(case["fi"]), orc.defaults)
                 fail(key, "option %r: %r in effect when run %d wrote the settings, %r on the next run without it on the command line" % (o, v1, i, v2),
                      dict(rp, run=i, option=o, written=v1, reread=v2, file=after))
 
@@ -1040,6 +1110,7 @@ def run(rep, tier, rng):
     cases += gen_reset(rng, tables, 5)
     cases += gen_listq(rng, tables)
     cases += gen_udefault(rng, tables)
+    cases += gen_libdefault(rng, tables, None if thorough else 20)
     cases += gen_wild(rng, tables, 3000 if thorough else 300)
     cases += gen_malformed(rng, tables, 3000 if thorough else 300)
     cases += gen_realfi(rng, tables, 400 if thorough else 40)
@@ -1050,7 +1121,7 @@ def run(rep, tier, rng):
     rep.extra["exhaustive"] = "source subsets: all 2^5 subsets of {command line, user section, FI db section, OFX Home, user [DEFAULT]} for each of the %d CONFIGURABLE options and 7 command-line-only ones" % len(tables["configurable"])
     rep.rule = ("corpus first; sweep: every option x all 32 subsets of the five places a value can come from, distinct values per place; persist: every CONFIGURABLE option x values of its domain "
                 "(URLs over all URL-legal characters incl. %, account lists of 1..20 ids, integers, flags) written with --write and re-read by a second run; random: 1..5 runs on one file with "
-                "several options from random places; reset / list-quoting probes (known findings); wild: out-of-domain values and nicknames (DEFAULT, URL as nickname, blanks, quotes, newlines); "
+                "several options from random places; reset / list-quoting / [DEFAULT] probes (known findings); libdefault: nicknames whose FI section (bundled fi.cfg and generated) disagrees with a built-in default, the command line gives the built-in default or the FI value, --write, then a run without it; wild: out-of-domain values and nicknames (DEFAULT, URL as nickname, blanks, quotes, newlines); "
                 "malformed: damaged user / FI files; realfi: nicknames of the bundled fi.cfg. Each run = fresh module state, real argparse, merge_config, write_config when --write. "
                 "non-trivial = every run of the case produced a merged mapping; distinct by full case content")
 
